@@ -294,3 +294,26 @@ Print Assumptions C08_state_cas_windows_closed.
 Theorem C08_state_login_premises_satisfiable : rinv 7 2 20 2 moving_state_system.
 Proof. exact moving_state_rinv. Qed.
 Print Assumptions C08_state_login_premises_satisfiable.
+
+(* "Once the client's last connection is closed ... not connected", for the runtime-state record.  PARTIAL: the model
+   carries the case in which the connection is still the client's registered control connection when its node closes it
+   (CloseConnection or stale sweep -> DisconnectClientIfMatch matches).  The full statement is kept below and is REFUTED
+   in the model: a connection that was kicked by a login that never completed is closed without any cloud call, and only
+   the record's 90 s ttl (not modelled) removes it. *)
+Theorem C08_state_after_close_partial :
+  forall (v : variant) (b : backend) (ttl X n c : N) (pre post : list event),
+  X <> 0%N ->
+  w_conns (fst (rs_run false v b ttl pre)) n c = true ->
+  quiet X c post = true ->
+  w_ctl (fst (rs_run false v b ttl (pre ++ AuthOK n c X :: post))) n c = Some X ->
+  snd (rs_run false v b ttl ((pre ++ AuthOK n c X :: post) ++ [Close n c])) X = None.
+Proof. exact state_after_close. Qed.
+Print Assumptions C08_state_after_close_partial.
+
+Definition C08_state_after_close_full_statement : Prop :=
+  forall (v : variant) (b : backend) (ttl : N), state_after_close_full_statement v b ttl.
+
+Theorem C08_state_after_close_full_refuted :
+  ~ state_after_close_full_statement current_variant redis_backend 300000.
+Proof. exact state_after_close_full_refuted. Qed.
+Print Assumptions C08_state_after_close_full_refuted.
